@@ -229,6 +229,7 @@ fn main() {
         "C21" => c21(req),
         "codec_contract" => codec_contract(req),
         "C22" => tenants::c22(req, &rt),
+        "C22src" => tenants::sources_ok(req),
         other => json!({"error": format!("unknown prop {}", other)}),
     });
 }
